@@ -330,6 +330,38 @@ func run(c *h.Ctx, cs Case) {
 		}
 		c.P.Class("missing-toplevel")
 	}
+	// (2e') the same for the statements the policy itself has: a top-level comparison / like / quantifier whose selector
+	// comes to "no value" (an optional field or index that misses, whatever holds it: map, list, bytes) passes - the
+	// policy gives what it gives without that statement; one whose selector fails on a required segment fails the full
+	// match and leaves the partial match as it is without it
+	for i, st := range cs.Pol {
+		if len(st.Sel) == 0 || (len(st.Sub) > 0 && st.Op != "all" && st.Op != "any") {
+			continue
+		}
+		_, rs := sel.Resolve(st.Sel, cs.Data)
+		if rs != sel.NoValue && rs != sel.Error {
+			continue
+		}
+		rest := append(append(pol.Policy{}, cs.Pol[:i]...), cs.Pol[i+1:]...)
+		without, ok := eval(c, rest, data, cs.ViaCtor)
+		if !ok {
+			continue
+		}
+		if rs == sel.NoValue {
+			if base != without {
+				c.Fail("C11/missing/optional-does-not-pass/own-statement/"+st.Op, "top-level %s over a selector that comes to no value (optional data missing) changes the outcome: %+v without it, %+v with it\npolicy %s\ndata %+v", st.Op, without, base, show(cs.Pol), cs.Data)
+			}
+			c.P.Class("own-statement:optional-missing")
+		} else {
+			if base.match {
+				c.Fail("C11/missing/required-passes-match/own-statement/"+st.Op, "top-level %s over a selector that fails on a required segment does not fail Match\npolicy %s\ndata %+v", st.Op, show(cs.Pol), cs.Data)
+			}
+			if base.partial != without.partial {
+				c.Fail("C11/missing/required-affects-partial/own-statement/"+st.Op, "top-level %s over a selector that fails on a required segment changes PartialMatch %v -> %v\npolicy %s", st.Op, without.partial, base.partial, show(cs.Pol))
+			}
+			c.P.Class("own-statement:required-missing")
+		}
+	}
 	if len(kinds) >= 2 || maxFan(cs.Pol, cs.Data) >= 2 {
 		shape := ""
 		for _, s := range cs.Pol {
@@ -1097,4 +1129,45 @@ func TestDeepBoundaries(t *testing.T) {
 			}
 		}
 	}
+}
+
+// TestOptionalMissMatrix: a statement over a selector whose LAST segment is optional and misses (or hits), for every
+// kind of holder - bytes, list, string, map, null, integer - and every kind of last segment - index inside, outside,
+// negative, field, quoted field, slice, iterator - under every comparison operator and in every connective position.
+// "A statement over missing optional data passes" is a claim about each of these cells; the random generator follows
+// the data and reaches few of them.
+func TestOptionalMissMatrix(t *testing.T) {
+	holders := []val.V{val.Bytes([]byte{}), val.Bytes([]byte{7, 9}), val.List(), val.List(val.Int(7), val.Int(9)), val.Str("hé"), val.Str(""),
+		val.Map(), val.Map(val.E("zz", val.Int(7)), val.E("0", val.Int(9))), val.Null(), val.Int(3)}
+	ip := func(i int64) *int64 { return &i }
+	tails := []sel.Seg{{Kind: "index", Idx: 0}, {Kind: "index", Idx: 1}, {Kind: "index", Idx: 5}, {Kind: "index", Idx: -1}, {Kind: "index", Idx: -9},
+		{Kind: "field", Name: "zz"}, {Kind: "qfield", Name: "0"}, {Kind: "field", Name: "nope"}, {Kind: "slice", From: ip(0), To: ip(1)}, {Kind: "slice", From: ip(5)}, {Kind: "iter"}}
+	seven, zero, str := val.Int(7), val.Int(0), val.Str("x")
+	n := 0
+	for _, hd := range holders {
+		for _, tl := range tails {
+			for _, opt := range []bool{true, false} {
+				tl.Opt = opt
+				s := sel.Sel{{Kind: "field", Name: "d"}, tl}
+				var stmts []pol.Stmt
+				for _, op := range []string{"==", ">", "<=", "<"} {
+					stmts = append(stmts, pol.Stmt{Op: op, Sel: s, Lit: &seven}, pol.Stmt{Op: op, Sel: s, Lit: &zero})
+				}
+				stmts = append(stmts, pol.Stmt{Op: "==", Sel: s, Lit: &str}, pol.Stmt{Op: "like", Sel: s, Pat: "*"},
+					pol.Stmt{Op: "any", Sel: s, Sub: []pol.Stmt{{Op: "==", Sel: sel.Sel{{Kind: "id"}}, Lit: &seven}}},
+					pol.Stmt{Op: "all", Sel: s, Sub: []pol.Stmt{{Op: "==", Sel: sel.Sel{{Kind: "id"}}, Lit: &seven}}})
+				tru := pol.Stmt{Op: "==", Sel: sel.Sel{{Kind: "field", Name: "one"}}, Lit: func() *val.V { v := val.Int(1); return &v }()}
+				fls := pol.Stmt{Op: "==", Sel: sel.Sel{{Kind: "field", Name: "one"}}, Lit: &zero}
+				for _, st := range stmts {
+					for _, p := range []pol.Policy{{st}, {{Op: "not", Sub: []pol.Stmt{st}}}, {{Op: "and", Sub: []pol.Stmt{tru, st}}}, {{Op: "or", Sub: []pol.Stmt{fls, st}}}, {tru, st}} {
+						for _, ctor := range []bool{false, true} {
+							prop.One(t, Case{Pol: p, Data: val.Map(val.E("d", hd), val.E("one", val.Int(1))), ViaCtor: ctor})
+							n++
+						}
+					}
+				}
+			}
+		}
+	}
+	P.SetExtra("optional_miss_matrix_cases", n)
 }
